@@ -63,6 +63,15 @@ ASSUMPTIONS = [
     '(not written).  Attributes of Signature and Key objects are not written.  The source tie (translator/gen_c02.py -> '
     'coq/Gen/GenC02.v) pins which attribute names raw / signature_segwit / signature / signature_hash / verify / '
     'Input.verify read and write',
+    'requests mut / sigf: the model side is the same extracted machine (run_scenario) driven by ocaml/c02_driver.ml: a '
+    're-signing library method = new digest id for every input + Transaction.sign(replace_signatures=True) on the inputs the '
+    'method re-signs (all, or the one set_locktime_relative_* / sign_and_update(i) names); signers are the first m listed keys '
+    '(any other choice is inside the recorded class resign_keeps_stale); the sequence / locktime configuration, the argument '
+    'form of a signature and the leading bytes of r and s are invisible to the model - the independent oracle (consensus '
+    'verdict on raw(), harness/props/c01.py) carries that part; closed instances in coq/Properties/C02.v '
+    '(resign_all_after_field_change_verifies, field_change_without_resign_refuted, '
+    'relative_locktime_resigns_one_input_refuted), no general theorem across a digest change; multi-input relative '
+    'locktimes are generated only while the proposed class relative_locktime_resigns_one_input is recorded',
     'threshold on the parse path (request thr; coq/Proofs/VerifyThreshold.v): gen_threshold is the translation of the '
     'statements of Input.update_scripts that assign sigs_required; the theorems cover every script whose first item is '
     'the number m: OP_m for m <= 16 on the working tree, the pushed number 01 m for 17 <= m <= 127 only for the '
@@ -86,6 +95,16 @@ RULE = ('exhaustive m-of-n / signer subsets / permutations / call splits for sma
         'tamper / re-sign history and every random history without third-party signatures; m-of-n inputs parsed from raw bytes (own writer and library-built, '
         'signature list replaced in the bytes): every boundary m, n in {1, 2, 14, 15, 16, 17, 20} (P2SH n <= 15) quick / '
         'all 1 <= m <= n <= 20 thorough, with m-1 / m / m+1 / one / duplicated / reordered / corrupted / foreign signatures; '
+        'library operations that re-sign (request mut): inputs of every kind holding the private keys of their first m keys, signed, '
+        'in every starting configuration (final / 0xfffffffe / replace_by_fee / relative blocks / relative time / zero sequences, '
+        'locktime 0 / blocks / time), then set_locktime_blocks / _time / _relative_blocks / _relative_time, sign_and_update, bumpfee, '
+        'add_output + sign(replace_signatures), shuffle, merge_transaction, update_totals - alone as first call, in fixed chains '
+        '(each called once and twice with other values) and in random chains: after EVERY call verify(), the independent '
+        'consensus verdict on raw() and parse(raw()).verify() must all be True; signature argument forms (request sigf): every '
+        'input kind rebuilt from public keys + signatures made by the harness (nonce searched so that r or s begins 0x30 / '
+        '0x00 / >= 0x80 / in between) handed to add_input / Input as DER+type bytes and hex, 64 bytes r||s and 128 hex, '
+        'Signature objects with and without key, Signature.hex() / bytes() / as_der_encoded(), Input.as_dict(): all kept, verify '
+        'True, raw() valid; '
         'a case is non-trivial when it contains at least one verification verdict; distinct by request')
 
 MULTI = ('sh', 'wsh', 'shwsh')
@@ -304,6 +323,12 @@ CORPUS = [
     'thr own wsh 16 16 0',                                                     # seeded change C02-r
     'thr lib shwsh 16 16 0',
     'thr own wsh 16 16 0.1.2.3.4.5.6.7.8.9.10.11.12.13.14.15',
+    # library operations that re-sign, on inputs that are already non-final / called twice: seeded change C02-y
+    'mut wpkh/1/0c rbf:0 ltt/1700000000;ltt/1800000000',
+    'mut sh/2/0c,1c,2c nf:0 ltt/1700000000;ltb/800000;ltt/1800000000',
+    # signatures handed over as 64 bytes r||s / 128 hex characters with r beginning 0x30: seeded change C02-z
+    'sigf wpkh/1/0c r30 rsh add',
+    'sigf sh/2/0c,1c,2c r30 asdict add',
 ]
 def gen_cases(rng, tier):
     big = tier == 'thorough'
@@ -639,6 +664,89 @@ def gen_cases(rng, tier):
                 cs.append(s.case('attr_sign_then_write'))
     # --- 7. thresholds on the PARSE path: m-of-n inputs read from raw bytes
     cs.extend(gen_thr(rng, big))
+    # --- 8. library operations that re-sign (or should), in every starting sequence configuration, once and twice
+    cs.extend(gen_mut(rng, big))
+    # --- 9. signature argument forms into add_input(signatures=...) / Input(signatures=...)
+    cs.extend(gen_sigf(rng, big))
+    return cs
+
+
+MUT_CFGS = ('fin:0', 'nf:0', 'rbf:0', 'relb:0', 'relt:0', 'zero:0', 'fin:650000', 'rbf:1600000000')
+MUT_SEQS = (
+    'ltt/1700000000;ltt/1800000000;ltb/800000;ltb/800001;ltt/1700000001;ltt/0;ltt/1700000002',
+    'ltb/700000;ltt/1600000000;ut;su;su/0;bf/2000;ltt/1610000000;ao/700;ltt/1620000000;bf/1500',
+    'lrb/0/20;lrb/0/21;ltt/1700000000;lrt/0/5120;lrt/0/1024;ltb/5000;lrb/0/0;ltt/1800000000;ltb/0;ltb/900000',
+    'sh/1;ltt/1750000000;mg/2;ltt/1760000000;sh/3;ltb/810000;mg/4;ltt/1770000000',
+)
+MUT_POOL = ('ltt/17%08d', 'ltb/8%05d', 'ltt/0', 'ltb/0', 'ut', 'su', 'su/0', 'bf/1%03d', 'ao/5%02d', 'sh/%d', 'mg/%d')
+
+
+def mut_shape(shape):
+    return ';'.join('%s/%d/%s' % (ty, m, ','.join(ks)) for ty, m, ks in shape)
+
+
+def gen_mut(rng, big):
+    cs = []
+    rel_known = known_status('relative_locktime_resigns_one_input') == 'known'
+    singles = [[(ty, 1, ['0c'])] for ty in SINGLE_ALL] + [[(ty, 2, toks(3))] for ty in MULTI] + [[('pk', 1, ['1u'])], [('pkh', 1, ['2u'])]]
+    mixed = [[('sh', 2, toks(2)), ('pkh', 1, ['2c'])], [('wsh', 1, toks(2)), ('wpkh', 1, ['2c']), ('shwsh', 2, toks(2, 3))],
+             [('shwpkh', 1, ['0c']), ('wsh', 2, toks(3, 1))]]
+    for shape in singles:
+        for cfg in MUT_CFGS:
+            for q, seq in enumerate(MUT_SEQS):
+                if big or cfg in ('nf:0', 'rbf:0') or rng.random() < 0.1:
+                    cs.append(Case('resign_ops', 'mut %s %s %s' % (mut_shape(shape), cfg, seq)))
+                # every operation alone as the FIRST call in this configuration
+            for st in ('ltt/1700000000', 'ltb/800000', 'lrb/0/20', 'lrt/0/5120', 'su', 'bf/2000', 'ao/700', 'sh/1', 'mg/1'):
+                if big or rng.random() < 0.06:
+                    cs.append(Case('resign_op_first', 'mut %s %s %s' % (mut_shape(shape), cfg, st)))
+    for shape in mixed:
+        for cfg in MUT_CFGS:
+            for seq in (MUT_SEQS[0], MUT_SEQS[1], MUT_SEQS[3]):
+                if big or cfg in ('nf:0', 'rbf:0') or rng.random() < 0.12:
+                    cs.append(Case('resign_ops_mixed', 'mut %s %s %s' % (mut_shape(shape), cfg, seq)))
+        if rel_known:
+            for i in range(len(shape)):
+                cs.append(Case('resign_relative_multi', 'mut %s fin:0 lrb/%d/20;ltt/1700000000;lrt/%d/5120;su' % (mut_shape(shape), i, i)))
+    for _ in range(1500 if big else 30):
+        shape = rng.choice(singles + mixed)
+        steps = []
+        for _ in range(rng.randrange(2, 7)):
+            p = rng.choice(MUT_POOL)
+            steps.append(p % rng.randrange(1, 90) if '%' in p else p)
+            if len(shape) == 1 and rng.random() < 0.2:
+                steps.append(rng.choice(('lrb/0/%d', 'lrt/0/%d')) % rng.choice((0, 1, 511, 512, 65535)))
+        # (an added input makes a later relative lock a multi-input one: class relative_locktime_resigns_one_input)
+        if any(st.startswith('mg') for st in steps):
+            if not rel_known:
+                steps = [st for st in steps if not st.startswith('lr')]
+            else:
+                # (with several inputs the model has to know whether the call changes anything: a relative lock of 0 on an
+                #  input that is already final changes nothing and nothing goes stale)
+                steps = [st[:-2] + '/1' if st.startswith('lr') and st.endswith('/0') else st for st in steps]
+        cs.append(Case('resign_ops_random', 'mut %s %s %s' % (mut_shape(shape), rng.choice(MUT_CFGS), ';'.join(steps))))
+    return cs
+
+
+SIG_LEADS = ('any', 'r30', 'r00', 'rhi', 'r7f', 's30', 's00')
+SIG_FORMS = ('derb', 'derh', 'rsb', 'rsh', 'obj', 'objnokey', 'libhex', 'libbytes', 'libder', 'libderh', 'asdict')
+
+
+def gen_sigf(rng, big):
+    cs = []
+    shapes = [[(ty, 1, ['0c'])] for ty in SINGLE_ALL] + [[(ty, 2, toks(3))] for ty in MULTI] + \
+             [[('pkh', 1, ['1u'])], [('sh', 2, toks(2)), ('wpkh', 1, ['2c'])], [('wsh', 1, toks(2)), ('pk', 1, ['2u']), ('shwsh', 2, toks(2, 3))]]
+    for shape in shapes:
+        single = len(shape) == 1 and shape[0][1] == 1
+        for lead in SIG_LEADS:
+            for form in SIG_FORMS:
+                key = lead in ('r30', 's30') and form in ('rsb', 'rsh', 'libhex', 'libbytes', 'asdict')
+                if big or key or rng.random() < 0.07:
+                    cs.append(Case('sig_form', 'sigf %s %s %s add' % (mut_shape(shape), lead, form)))
+                if big or (key and rng.random() < 0.3) or rng.random() < 0.04:
+                    cs.append(Case('sig_form_input', 'sigf %s %s %s inp' % (mut_shape(shape), lead, form)))
+                if single and form != 'asdict' and (big or rng.random() < 0.05):
+                    cs.append(Case('sig_form_single', 'sigf %s %s %s one' % (mut_shape(shape), lead, form)))
     return cs
 
 
@@ -823,6 +931,10 @@ def prop_check(c, out, exempt_mixed=False, exempt_legacy_non_all=False, exempt_u
         return 'unexpected answer %r' % out[:160]
     if c.req.startswith('thr '):
         return thr_check(c, out)
+    if c.req.startswith('mut '):
+        return mut_check(c, out)
+    if c.req.startswith('sigf '):
+        return sigf_check(c, out)
     inputs, ops = parse_req(c.req)
     bases = _base_hts(ops)
     obs_ops = [(o, bases[j]) for j, o in enumerate(ops) if o[0] in 'SVRQC' or o.startswith('A/') or o == 'AX']
@@ -928,6 +1040,88 @@ def thr_check(c, out):
     return None
 
 
+MUT_NAMES = {'ltb': 'set_locktime_blocks', 'ltt': 'set_locktime_time', 'lrb': 'set_locktime_relative_blocks',
+             'lrt': 'set_locktime_relative_time', 'su': 'sign_and_update', 'bf': 'bumpfee', 'ao': 'add_output + sign(replace_signatures=True)',
+             'sh': 'shuffle + sign_and_update', 'mg': 'merge_transaction', 'ut': 'update_totals'}
+
+
+def mut_check(c, out):
+    """a transaction whose inputs hold the correct private keys, signed, then library operations that re-sign (or change
+    nothing): after EVERY one of them verify() must be True, the bytes of raw() must pass the independent consensus-style
+    verification (harness/props/c01.py verify_input, own digests) and parse(raw()).verify() must be True"""
+    _, ins, cfg, steps = c.req.split(' ')
+    steps = steps.split(';')
+    obs = out.split(' ')
+    if len(obs) != len(steps):
+        return 'answer has %d observations for %d operations' % (len(obs), len(steps))
+    for j, (st, a) in enumerate(zip(steps, obs)):
+        f = st.split('/')
+        call = '%s(%s)' % (MUT_NAMES.get(f[0], f[0]), ', '.join(f[1:]))
+        hist = 'signed transaction (%s, start %s) after %s' % (ins, cfg, ' -> '.join(steps[:j + 1]))
+        if a.startswith('ME:'):
+            return 'COMPLETENESS: %s raised %s on a %s' % (call, a[3:], hist)
+        if not a.startswith('M') or a.count('/') != 2:
+            return 'operation %s answered %s' % (st, a[:80])
+        lib, rawv, par = a[1:].split('/')
+        if lib == 'T' and rawv != 'T':
+            return ('SOUNDNESS: %s: verify() is True but the bytes raw() returns do not pass an independent consensus-style '
+                    'verification (%s)' % (hist, rawv))
+        if (lib, rawv, par) != ('T', 'T', 'T'):
+            return ('COMPLETENESS: %s: the transaction, re-signed by the library with the correct private keys held by its '
+                    'inputs, does not verify after %s: verify() %s, independent consensus verdict on raw() %s, '
+                    'Transaction.parse(raw()).verify() %s' % (hist, call, lib, rawv, par))
+    return None
+
+
+def sigf_check(c, out):
+    """inputs rebuilt from public keys + m valid signatures (made by the harness over the consensus digest) handed over in one
+    argument form: every signature must be kept, verify() True, raw() valid for the independent verifier, parse too"""
+    _, ins, lead, form, ctor = c.req.split(' ')
+    if not out.startswith('F') or out.count('/') != 3:
+        return 'rebuilding from signatures answered %s' % out[:80]
+    lib, rawv, par, kept = out[1:].split('/')
+    need = '.'.join(s.split('/')[1] if s.split('/')[0] in MULTI else '1' for s in ins.split(';'))
+    what = ('%s rebuilt from public keys + valid signatures by the first m listed keys given as %s (%s, leading byte class %s)'
+            % (ins, form, {'add': 'add_input(signatures=[...])', 'inp': 'Input(signatures=[...])', 'one': 'add_input(signatures=<one>)'}[ctor], lead))
+    if lib == 'T' and rawv != 'T':
+        return 'SOUNDNESS: %s: verify() True, bytes of raw() not valid (%s)' % (what, rawv)
+    if kept != need:
+        return 'COMPLETENESS: %s: the inputs keep %s signatures of %s handed over (verify() %s)' % (what, kept, need, lib)
+    if (lib, rawv, par) != ('T', 'T', 'T'):
+        return ('COMPLETENESS: %s: verify() %s, independent consensus verdict on raw() %s, parse(raw()).verify() %s'
+                % (what, lib, rawv, par))
+    return None
+
+
+def _rel_one_input(c, io, mo):
+    """set_locktime_relative_blocks / _time change a field every input's digest commits to (a sequence number, possibly
+    version and locktime) but re-sign only the input they name: on a transaction with SEVERAL inputs the others keep stale
+    signatures until an operation re-signs all of them.  Exactly that: the only steps whose answer is not all-True are
+    relative-locktime steps on a transaction with >= 2 inputs and the steps after them that re-sign at most one input;
+    object and bytes agree (all three verdicts False)"""
+    if not c.req.startswith('mut ') or prop_check(c, io) is None:
+        return False
+    _, ins, cfg, steps = c.req.split(' ')
+    n, broken, hit = len(ins.split(';')), False, False
+    obs = io.split(' ')
+    steps = steps.split(';')
+    if len(obs) != len(steps):
+        return False
+    for st, a in zip(steps, obs):
+        f = st.split('/')
+        if f[0] == 'mg':
+            n += 1
+        if f[0] in ('lrb', 'lrt'):
+            broken = broken or n >= 2
+        elif f[0] != 'ut' and not (f[0] == 'su' and len(f) > 1):
+            broken = False
+        if a != 'MT/T/T':
+            if not broken or a != 'MF/F/F':
+                return False
+            hit = True
+    return hit
+
+
 def _all_like(ht):
     return not (ht & 0x80) and (ht & 0x1f) not in (2, 3)
 
@@ -1020,6 +1214,8 @@ KNOWN_CLASSES = {
     'object_bytes_out_of_sync': _unsynced,
     # (proposed) pushed thresholds above 16 on the parse path
     'threshold_above_16_pushed': _thr_above_16,
+    # (proposed) a relative locktime set on one input of several re-signs only that input
+    'relative_locktime_resigns_one_input': _rel_one_input,
 }
 
 
